@@ -180,6 +180,14 @@ def sym_list(x=()):
         return SymList(None, x.d.arr, z3.K(IntS, z3.IntVal(KINT)), x.d.size)
     if isinstance(x, SymList):
         return x.copy()
+    if isinstance(x, AnyObj) and x.elem is not None:
+        # list() of an argument of symbolic dynamic type and symbolic length: TypeError unless it
+        # is iterable, else a list of the same length and elements
+        c = cur()
+        if not c.decide(x._has_len()):
+            raise TypeError(f"'{x.name}' object is not iterable")
+        return AnyObj(x.name + "!aslist", c, own_cls=x.own_cls, tag=z3.IntVal(AnyObj.LIST), length=x.length,
+                      value=x.value, elem=x.elem, assume_domain=False)
     return list(x)
 
 
